@@ -152,7 +152,11 @@ def worker(ns, items, res, opts):
                         break
                 # readers are faithful
                 docs = [ro_text] + texts
-                by_id = {ns.mt.MosFile.from_string(d).message_id: d for d in docs}
+                try:
+                    by_id = {ns.mt.MosFile.from_string(d).message_id: d for d in docs}
+                except Exception as e:  # noqa
+                    explore.add_simple_finding(res, prop, f'doc:str:raised:{type(e).__name__}', f'a pool message no longer reads from a string: {type(e).__name__}: {e}', sequence=list(seq))
+                    continue
                 paths = []
                 store.objects = {}
                 for k, d in enumerate(docs):
@@ -161,9 +165,21 @@ def worker(ns, items, res, opts):
                         f.write(coll.to_bytes(d))
                     paths.append(p)
                     store.put('rb', f'r{k}.mos.xml', d)
-                readers = ([('from_string', ns.mc.MosReader.from_string(d)) for d in docs] +
-                           [('from_file', ns.mc.MosReader.from_file(p)) for p in paths] +
-                           [('from_s3', ns.mc.MosReader.from_s3('rb', f'r{k}.mos.xml')) for k in range(len(docs))])
+                readers = []
+                failed = None
+                for how, fn in ([('from_string', (lambda d=d: ns.mc.MosReader.from_string(d))) for d in docs] +
+                                [('from_file', (lambda p=p: ns.mc.MosReader.from_file(p))) for p in paths] +
+                                [('from_s3', (lambda k=k: ns.mc.MosReader.from_s3('rb', f'r{k}.mos.xml'))) for k in range(len(docs))]):
+                    try:
+                        readers.append((how, fn()))
+                    except Exception as e:  # noqa
+                        failed = (how, e)
+                        break
+                if failed:
+                    explore.add_simple_finding(res, prop, f'reader:{failed[0]}:raised:{type(failed[1]).__name__}',
+                                               f'MosReader.{failed[0]} over {list(seq)} raised {type(failed[1]).__name__}: {failed[1]} '
+                                               f'(the same document reads fine from the other sources)', sequence=list(seq))
+                    continue
                 for how, mr in readers:
                     res.extra['readers'] += 1
                     o1, o2 = mr.mos_object, mr.mos_object
